@@ -277,6 +277,21 @@ func runC02(c *Ctx) {
 			if !eqBytes(sspy.Last(), want) {
 				rec.Violate("tbs-mismatch", "sign1-sign-decoded", fmt.Sprintf("signer got %s\nreference  %s", hexs(sspy.Last()), hexs(want)), input)
 			}
+			// ... and what was signed is what the message then carries: the received protected bytes
+			if err == nil {
+				var out []byte
+				var merr error
+				if wm.Tagged {
+					out, merr = msg.MarshalCBOR()
+				} else {
+					out, merr = (*cose.UntaggedSign1Message)(&msg).MarshalCBOR()
+				}
+				if merr == nil {
+					if f, ok := sign1Fields(out, wm.Tagged); !ok || !eqBytes(f.Layer.protContent, l.Content()) {
+						rec.Violate("tbs-mismatch", "sign1-sign-decoded/emitted", fmt.Sprintf("the message signed over protected content %s is emitted with %s", hexs(l.Content()), hexs(f.Layer.protContent)), input)
+					}
+				}
+			}
 		}
 	})
 
